@@ -37,7 +37,12 @@ type vReplayer struct {
 	universe []vTag
 	// node role
 	subWait   map[int]int  // model stream -> recvEntered value to wait for at Sub2
-	parked     map[int]bool // model streams whose subscribe is parked right before remoteMu.Lock()
+	parked     map[int]bool   // model streams with a subscribe in progress (parked at one of the gates)
+	stage      map[int]string // where it is parked: "check" (before remoteMu.Lock), "tag" (at AddTagsCtx), "recheck" (second CheckMember)
+	subDone    map[int]chan struct{}
+	lockFree   bool           // the engine was seen not to hold remoteMu while parked at AddTagsCtx
+	stashed    []string
+	stashedObs any
 	lockHolder int          // stream whose subscribe holds remoteMu in the spec (between Sub1 and Sub2)
 	evicted    map[string]int // "account|space" -> step at which the account was evicted as a non-member
 	checkedAt  map[int]int    // model stream -> step of its parked subscribe's membership check
@@ -83,6 +88,9 @@ func vUniverse(b vBehaviour) []vTag {
 		}
 	}
 	var pats []vSegs
+	if b.Cfg.Prelude == "holder" {
+		pats = append(pats, vSegs{"a"})
+	}
 	for _, s := range b.Steps {
 		pats = append(pats, s.A.F...)
 		pats = append(pats, s.A.P...)
@@ -101,6 +109,7 @@ func vUniverse(b vBehaviour) []vTag {
 func vReplayBehaviour(t *testing.T, rep *vfReport, b vBehaviour, seed int64) {
 	r := &vReplayer{rep: rep, b: b, subWait: map[int]int{}, hookPending: map[int]bool{}, laterFrames: map[int]int{},
 		parked: map[int]bool{}, evicted: map[string]int{}, checkedAt: map[int]int{}, raceHeld: map[string]bool{},
+		stage: map[int]string{}, subDone: map[int]chan struct{}{},
 		frames: map[int]*pubsubproto.Publish{}, handledId: map[int]int{}, genuine: map[string]*pubsubproto.Publish{}, own: map[int]bool{}, idOf: map[string]int{}}
 	x := uint64(seed)*2654435761 + 12345
 	r.rnd = func(n int) int { x = x*6364136223846793005 + 1442695040888963407; return int((x >> 33) % uint64(n)) }
@@ -123,6 +132,14 @@ func vReplayBehaviour(t *testing.T, rep *vfReport, b vBehaviour, seed int64) {
 	}()
 	r.e = newVEngine(t, b.Cfg)
 	defer r.e.finish()
+	if b.Cfg.Prelude == "holder" {
+		// the state the behaviour starts from: stream 1 subscribed to pattern a of space X (a second holder of a
+		// pattern gives the trie refcount something to lose)
+		r.e.openStream(1)
+		st := r.e.streams[1]
+		st.waitHandled(st.push(vSubscribeFrame("X", []string{"a"})))
+		r.e.flush(r.e.allModels())
+	}
 	for i := range b.Steps {
 		r.step = i
 		r.stepNo = i
@@ -149,6 +166,9 @@ func vReplayBehaviour(t *testing.T, rep *vfReport, b vBehaviour, seed int64) {
 // ---------------------------------------------------------------------------------------------
 
 func (r *vReplayer) prev() *vExp {
+	if r.step == 0 && r.b.Init != nil && len(r.b.Init.St) == r.b.Cfg.NStreams {
+		return r.b.Init
+	}
 	if r.step == 0 {
 		n := r.b.Cfg.NStreams
 		e := &vExp{St: make([]string, n), Want: make([][]vTag, n), PendU: make([][]vTag, n), Tokens: make([]int, n), Member: r.b.Cfg.InitMember, MuFree: true, Busy: make([]string, n)}
@@ -194,16 +214,24 @@ func (r *vReplayer) nodeStep(s vStep) {
 	case "SubReject":
 		r.deliverFrame(a.S, vSubscribeFrame(a.Sp, e.realPatterns(a.F)))
 	case "SubCheck":
-		// run the real handleSubscribe up to the point right before remoteMu.Lock(): validation and the
-		// membership answer are decided, nothing of the engine state is touched yet
 		r.parkSubscribe(a.S, a.Sp, a.F)
 	case "Sub1":
-		// remoteMu.Lock() .. AddTagsCtx is one uninterruptible piece of the real call: it is executed at Sub2;
-		// the steps TLC may schedule in between do not need remoteMu and commute with the recorded interest
+		// remoteMu.Lock(), interest recorded; the real call stops at AddTagsCtx (or ends when nothing was accepted)
+		if r.stage[a.S] == "check" {
+			r.advance(a.S)
+		}
 		r.lockHolder = a.S
 	case "Sub2":
-		r.releaseSubscribe(r.lockHolder)
+		// AddTagsCtx / rollback, remoteMu released; the real call stops at its second membership check, if it has one
+		r.probeLock(holder)
+		if r.stage[holder] == "tag" {
+			r.advance(holder)
+		}
 		r.lockHolder = 0
+	case "Sub3":
+		if r.stage[a.S] == "recheck" {
+			r.advance(a.S)
+		}
 	case "Unsub1":
 		r.deliverFrame(a.S, vUnsubscribeFrame(a.Sp, e.realPatterns(a.P)))
 	case "Unsub2":
@@ -245,6 +273,9 @@ func (r *vReplayer) nodeStep(s vStep) {
 	if a.Act == "Sub2" {
 		released = holder
 	}
+	if a.Act == "Sub3" {
+		released = a.S
+	}
 	r.checkEvicted(a, released, after)
 
 	// ---- (a) property predicates on the real observations
@@ -261,7 +292,8 @@ func (r *vReplayer) nodeStep(s vStep) {
 	}
 	if a.Act == "SubReject" {
 		// a refused subscribe must not register interest
-		if fmt.Sprint(before.Tags) != fmt.Sprint(after.Tags) || fmt.Sprint(before.RecPat) != fmt.Sprint(after.RecPat) || fmt.Sprint(before.Refs) != fmt.Sprint(after.Refs) {
+		engineSame := before.Locked || after.Locked || (fmt.Sprint(before.RecPat) == fmt.Sprint(after.RecPat) && fmt.Sprint(before.Refs) == fmt.Sprint(after.Refs))
+		if fmt.Sprint(before.Tags) != fmt.Sprint(after.Tags) || !engineSame {
 			r.violate("refused-subscribe-registered:"+s.Out.Code, fmt.Sprintf("subscribe of stream %d (account %s) to %s %v must be refused (%s) but interest changed: tags %v -> %v, records %v -> %v",
 				a.S, r.b.Cfg.StreamAcct[a.S-1], a.Sp, a.F, s.Out.Code, before.Tags, after.Tags, before.RecPat, after.RecPat))
 		}
@@ -270,6 +302,11 @@ func (r *vReplayer) nodeStep(s vStep) {
 	r.checkViews(exp, after)
 
 	// ---- (b) conformance with the state the spec predicts
+	if r.lockFree {
+		r.viewsSettled()
+		r.driftf("remoteMu is not held while the subscribe tags its stream (AddTagsCtx): the close hook could run in between")
+		return
+	}
 	r.compareViews(exp, after)
 	r.compareStatus(s, frames)
 }
@@ -278,6 +315,9 @@ func (r *vReplayer) nodeStep(s vStep) {
 // after the call - whatever else the engine holds
 func (r *vReplayer) checkWithdrawn(a vAct, before, after vViews) {
 	cfg := r.b.Cfg
+	if before.Locked || after.Locked {
+		return // a subscribe parked at AddTagsCtx holds remoteMu: the engine's records cannot be read
+	}
 	inSpace := func(keys []string, sp string) []string {
 		var res []string
 		for _, k := range keys {
@@ -371,11 +411,18 @@ func (r *vReplayer) checkWithdrawn(a vAct, before, after vViews) {
 	}
 }
 
+// parkSubscribe hands a Subscribe frame to the stream's read loop and lets the real handleSubscribe run until
+// the harness-owned CheckMember has answered: validation and membership are decided, remoteMu is not yet taken.
 func (r *vReplayer) parkSubscribe(model int, sp string, f []vSegs) bool {
 	e := r.e
 	e.mem.arm(model)
+	if e.vpool != nil {
+		e.vpool.arm(model)
+	}
 	st := e.streams[model]
-	r.subWait[model] = st.push(vSubscribeFrame(sp, e.realPatterns(f)))
+	n := st.push(vSubscribeFrame(sp, e.realPatterns(f)))
+	r.subWait[model] = n
+	r.subDone[model] = st.handledChan(n)
 	r.laterFrames[model]--
 	select {
 	case got := <-e.mem.atGate:
@@ -383,29 +430,110 @@ func (r *vReplayer) parkSubscribe(model int, sp string, f []vSegs) bool {
 			panic("verif harness: wrong stream at the subscribe gate")
 		}
 		r.parked[model] = true
+		r.stage[model] = "check"
 		r.checkedAt[model] = r.stepNo
 		return true
-	case <-time.After(vWatchdog):
+	case <-r.subDone[model]:
 		// the subscribe never asked the membership checker: it was refused (or accepted) on another path
-		e.mem.mu.Lock()
-		e.mem.armed[model] = false
-		e.mem.mu.Unlock()
+		e.mem.disarm(model)
 		r.driftf("subscribe did not reach the membership check")
 		return false
+	case <-time.After(vWatchdog):
+		panic(vHang{"subscribe neither reached the membership check nor returned"})
 	}
 }
 
-func (r *vReplayer) releaseSubscribe(model int) {
+// advance releases the gate the subscribe of the stream is parked at and waits for its next stop: AddTagsCtx
+// (remoteMu taken, interest recorded), the second membership check (tags added, remoteMu released) or its end.
+func (r *vReplayer) advance(model int) {
 	if !r.parked[model] {
 		return
 	}
 	e := r.e
-	e.mem.mu.Lock()
-	ch := e.mem.release[model]
-	e.mem.mu.Unlock()
-	close(ch)
-	e.streams[model].waitHandled(r.subWait[model])
-	delete(r.parked, model)
+	switch r.stage[model] {
+	case "check":
+		e.mem.mu.Lock()
+		ch := e.mem.release[model]
+		e.mem.mu.Unlock()
+		close(ch)
+	case "tag":
+		e.vpool.mu.Lock()
+		ch := e.vpool.release[model]
+		e.vpool.mu.Unlock()
+		close(ch)
+	case "recheck":
+		e.mem.mu.Lock()
+		ch := e.mem.release2[model]
+		e.mem.mu.Unlock()
+		close(ch)
+	}
+	var tagGate chan int
+	if e.vpool != nil {
+		tagGate = e.vpool.atGate
+	}
+	select {
+	case got := <-tagGate:
+		if got != model {
+			panic("verif harness: wrong stream at the AddTagsCtx gate")
+		}
+		r.stage[model] = "tag"
+	case got := <-e.mem.atGate2:
+		if got != model {
+			panic("verif harness: wrong stream at the re-check gate")
+		}
+		r.stage[model] = "recheck"
+	case <-r.subDone[model]:
+		delete(r.parked, model)
+		delete(r.stage, model)
+		e.mem.disarm(model)
+		if e.vpool != nil {
+			e.vpool.disarm(model)
+		}
+	case <-time.After(vWatchdog):
+		panic(vHang{"subscribe does not go on after its gate was released"})
+	}
+}
+
+func (r *vReplayer) releaseSubscribe(model int) {
+	for i := 0; r.parked[model] && i < 4; i++ {
+		r.advance(model)
+	}
+}
+
+// probeLock: the subscribe of the stream is parked at AddTagsCtx. The engine is specified to hold remoteMu there
+// (that makes "record interest + tag" atomic w.r.t. the close hook). If the lock is free, the schedule the lock
+// is meant to exclude is possible on the real engine - so it is taken: every pending close hook runs now.
+func (r *vReplayer) probeLock(model int) {
+	if r.stage[model] != "tag" || !r.e.svc.remoteMu.TryLock() {
+		return
+	}
+	r.e.svc.remoteMu.Unlock()
+	r.lockFree = true
+	var pend []int
+	for m := range r.hookPending {
+		pend = append(pend, m)
+	}
+	sort.Ints(pend)
+	for _, m := range pend {
+		r.e.onStreamClose(m)
+		delete(r.hookPending, m)
+	}
+}
+
+// viewsSettled evaluates the agreement of the three views on the real state alone (no operation of the harness
+// is in flight); used after a schedule the specification does not contain
+func (r *vReplayer) viewsSettled() {
+	if len(r.parked) > 0 || len(r.hookPending) > 0 {
+		return
+	}
+	n := r.b.Cfg.NStreams
+	exp := &vExp{MuFree: true, Busy: make([]string, n), St: make([]string, n), Want: make([][]vTag, n)}
+	for i := range exp.Busy {
+		exp.Busy[i] = "idle"
+		exp.St[i] = "?"
+		exp.Want[i] = []vTag{{Sp: "?", Pat: vSegs{"?"}}} // no "all withdrawn" claim
+	}
+	r.checkViews(exp, r.e.views(r.universe))
 }
 
 // an account that was evicted as a non-member (and not re-admitted) must hold no subscription. The one
@@ -452,7 +580,10 @@ func (r *vReplayer) checkEvicted(a vAct, released int, v vViews) {
 			if r.raceHeld[ek] {
 				continue // still the interest registered through the race reported before
 			}
-			if released == i+1 && r.checkedAt[i+1] < at {
+			if r.stage[i+1] == "recheck" {
+				continue // registered, second membership check still to come (it withdraws the interest again)
+			}
+			if (released == i+1 || r.stage[i+1] == "tag") && r.checkedAt[i+1] < at {
 				r.raceHeld[ek] = true
 				r.violate("subscribe-racing-eviction-reregisters-evicted-member", fmt.Sprintf(
 					"stream %d (account %s) passed the membership check of its subscribe to space %s at step %d, the account was removed and evicted at step %d, then the subscribe recorded its interest: the evicted non-member holds %v",
@@ -694,8 +825,8 @@ func (r *vReplayer) compareViews(exp *vExp, v vViews) {
 			r.driftf("stream %d pool tags %v, spec %v", i+1, v.Tags[i], wantTags)
 		}
 	}
-	if !exp.MuFree {
-		return // the real subscribe is parked before the lock, the spec is already past Sub1
+	if !exp.MuFree || v.Locked {
+		return // a subscribe holds remoteMu (parked at AddTagsCtx): the engine's records are read again after Sub2
 	}
 	refs := map[string]int{}
 	for _, x := range exp.Refs {
@@ -738,6 +869,15 @@ func (r *vReplayer) compareStatus(s vStep, frames map[int][]*pubsubproto.PubSubM
 				got = append(got, obs{m, vCodeNames[st.Code], strings.Join(tops, ",")})
 			}
 		}
+	}
+	// a subscribe that accepts nothing returns at once: what the spec emits at Sub2 is written at Sub1 already
+	if s.A.Act == "Sub1" && len(got) > 0 {
+		r.stashed = append(r.stashed, fmt.Sprint(got))
+		r.stashedObs = got
+		got = nil
+	} else if s.A.Act == "Sub2" && r.stashedObs != nil {
+		got = append(r.stashedObs.([]obs), got...)
+		r.stashedObs = nil
 	}
 	var want []obs
 	if s.Out.To != 0 && (s.Out.Kind == "status" || s.Out.Kind == "publish") {
